@@ -137,23 +137,34 @@ def gen_calls(rng, n, lim):
     return calls
 
 
-def whole_run_stream(run, lib, exe, nproc, ncalls, violation, tag="sys"):
-    """returns (number of calls compared, set of distinct classes).  `violation(sig, kind, detail, replay)` reports."""
+def whole_run_stream(run, lib, exe, nproc, ncalls, violation, tag="sys", rewrite=False, sigprefix="sys"):
+    """returns (number of calls compared, set of distinct classes).  `violation(sig, kind, detail, replay)` reports.
+    rewrite=True: the configuration file is rewritten (or removed) between the calls of one process; the model predicts call k
+    from the file in place at call k alone (C11)."""
     rng = run.rng
     procs = []
     for i in range(nproc):
         ini = gen_ini(rng)
-        procs.append({"ini": ini, "calls": gen_calls(rng, ncalls, rng.choice([255, 300, 1000])), "env": [b"A=va lue", b"EMPTY=", b"BIG=" + b"B" * rng.choice([10, 260, 1200]), b"PATH=/bin"]})
+        calls = gen_calls(rng, ncalls, rng.choice([255, 300, 1000]))
+        inis = [ini]
+        for k in range(1, len(calls)):
+            r = rng.random()
+            inis.append((gen_ini(rng) if r < 0.55 else ([b"[snoopy]", b"message_format = %{cmdline}", b"output = file:@D@/out.log"] if r < 0.65 else inis[-1])) if rewrite else ini)
+        procs.append({"ini": ini, "inis": inis, "calls": calls, "env": [b"A=va lue", b"EMPTY=", b"BIG=" + b"B" * rng.choice([10, 260, 1200]), b"PATH=/bin"]})
 
-    def inibytes(p, d):
-        return None if p["ini"] is None else (b"\n".join(p["ini"]) + b"\n").replace(b"@D@", d.encode())
+    def inibytes(p, d, k=0):
+        it = p["inis"][k]
+        return None if it is None else (b"\n".join(it) + b"\n").replace(b"@D@", d.encode())
 
     def job(i):
         p = procs[i]
         d = os.path.join(run.scratch, "sys-%s-%d" % (tag, i))
         ib = inibytes(p, d)
         script = list(SINKS) + ["ini\t" + (hexs(ib) if ib is not None else "~"), "env\t" + hexlist(p["env"])]
-        for (api, path, argv) in p["calls"]:
+        for k, (api, path, argv) in enumerate(p["calls"]):
+            if k and p["inis"][k] is not p["inis"][k - 1]:
+                ibk = inibytes(p, d, k)
+                script.append("ini\t" + (hexs(ibk) if ibk is not None else "~"))
             script.append(call_line(api, path, argv, [] if api == "execve" else None, 0, -1, 2))
         return (i, d, script, run_script(run, lib, script, "%s-%d" % (tag, i), timeout=120))
     outs = run_many(job, range(nproc), workers=8)
@@ -161,8 +172,8 @@ def whole_run_stream(run, lib, exe, nproc, ncalls, violation, tag="sys"):
     for (i, d, script, r) in outs:
         p = procs[i]
         pcs = per_call(r["records"])
-        ib = inibytes(p, d)
         for k, (api, path, argv) in enumerate(p["calls"]):
+            ib = inibytes(p, d, k)
             real = pcs.get(k, {}).get("real", [])
             pid = real[0][7] if real and len(real[0]) > 7 else "0"
             cases.append("\t".join(["sys", hexs(ib) if ib is not None else "~", hexs(path), hexlist(argv), hexlist(p["env"]), "0", "0", "0", pid]))
@@ -175,12 +186,12 @@ def whole_run_stream(run, lib, exe, nproc, ncalls, violation, tag="sys"):
         d, script, r = byproc[i]
         if r["status"] != 0:
             if k == 0:
-                violation("sys:caller-died", "crash", "caller ended with status %s under a generated configuration: %s" % (r["status"], r["stderr"][-300:]),
+                violation(sigprefix + ":caller-died", "crash", "caller ended with status %s under a generated configuration: %s" % (r["status"], r["stderr"][-300:]),
                           {"failing_input": {"ini": (inibytes(p, "@D@") or b"(no file)").decode(errors="replace")}, "script": script, "stream": "system"})
             continue
         f = pred[n].split("\t")
         if f[0] != "ok":
-            violation("sys:model-fault", "correspondence", "the composed model faults (%s) on a generated configuration the implementation survived" % f[0],
+            violation(sigprefix + ":model-fault", "correspondence", "the composed model faults (%s) on a generated configuration the implementation survived" % f[0],
                       {"failing_input": {"ini": (inibytes(p, "@D@") or b"(no file)").decode(errors="replace")}, "script": script, "call_index": k, "stream": "system"})
             continue
         sinkmap = {("0", (d + "/out.log").encode()): "out", ("0", (d + "/out-T.log").encode()): "out2", ("0", b"/dev/tty"): "tty", ("0", b"/dev/null"): None,
@@ -211,9 +222,10 @@ def whole_run_stream(run, lib, exe, nproc, ncalls, violation, tag="sys"):
         distinct.add((tuple(sorted(expected)), tuple(len(v) for v in expected.values()), i))
         if got != expected or late:
             what = "records at exec entry differ from the composed model's prediction" if got != expected else "bytes reached a sink after the real exec returned"
-            violation("sys:records", "spec_violation", "%s (whole run: config parse -> filter -> format -> output); expected %s, observed %s" % (
-                what, {s: [len(x) // 2 for x in v] for s, v in expected.items()}, {s: [len(x) // 2 for x in v] for s, v in got.items()}),
-                {"failing_input": {"ini": (inibytes(p, "@D@") or b"(no file)").decode(errors="replace"), "call": script[len(SINKS) + 2 + k][:300]},
+            violation(sigprefix + ":records", "spec_violation", "%s (whole run: config parse -> filter -> format -> output%s); expected %s, observed %s" % (
+                what, ", call %d of a history with the file rewritten between calls" % k if rewrite else "",
+                {s: [len(x) // 2 for x in v] for s, v in expected.items()}, {s: [len(x) // 2 for x in v] for s, v in got.items()}),
+                {"failing_input": {"ini": (inibytes(p, "@D@", k) or b"(no file)").decode(errors="replace"), "call_index": k, "history_inis": [(inibytes(p, "@D@", j) or b"(no file)").decode(errors="replace") for j in range(k + 1)] if rewrite else None},
                  "script": script, "call_index": k, "stream": "system",
                  "expected": {s: [x[:200] for x in v] for s, v in expected.items()}, "observed": {s: [x[:200] for x in v] for s, v in got.items()}, "late": late})
     return ncmp, distinct
